@@ -110,7 +110,12 @@ Apply(fn, a) ==
     [] fn = "hex" -> IF n # 1 THEN Undef ELSE IF ~IsIntText(a[1]) THEN Wrong ELSE IF IntOf(a[1]) < 0 THEN Undef ELSE Text(ToBase(IntOf(a[1]), 16))
     [] fn = "oct" -> IF n # 1 THEN Undef ELSE IF ~IsIntText(a[1]) THEN Wrong ELSE IF IntOf(a[1]) < 0 THEN Undef ELSE Text(ToBase(IntOf(a[1]), 8))
     [] fn = "abs" -> IF n # 1 THEN Undef ELSE IF ~IsIntText(a[1]) THEN Wrong ELSE IntR(IF IntOf(a[1]) < 0 THEN 0 - IntOf(a[1]) ELSE IntOf(a[1]))
-    [] fn = "power" -> IF n # 2 THEN Undef ELSE IF ~IsIntText(a[1]) \/ ~IsIntText(a[2]) THEN Wrong
+    [] fn = "power" -> IF n # 2 THEN Undef
+                       \* fractional exponents on perfect squares, negative exponents: exact rational results
+                       ELSE IF IsIntText(a[1]) /\ IntOf(a[1]) >= 0 /\ IntOf(a[1]) <= 10000 /\ IsSquare(IntOf(a[1])) /\ a[2] = <<"0", ".", "5">> THEN IntR(SqrtOf(IntOf(a[1])))
+                       ELSE IF IsIntText(a[1]) /\ IntOf(a[1]) >= 0 /\ IntOf(a[1]) <= 400 /\ IsSquare(IntOf(a[1])) /\ a[2] = <<"1", ".", "5">> THEN IntR(IPow(SqrtOf(IntOf(a[1])), 3))
+                       ELSE IF IsIntText(a[1]) /\ IntOf(a[1]) >= 1 /\ IntOf(a[1]) <= 20 /\ a[2] \in {<<"-", "1">>, <<"-", "2">>} THEN [k |-> "ratio", n |-> 1, d |-> IPow(IntOf(a[1]), 0 - IntOf(a[2]))]
+                       ELSE IF ~IsIntText(a[1]) \/ ~IsIntText(a[2]) THEN Wrong
                        ELSE IF IntOf(a[2]) < 0 \/ IntOf(a[2]) > 80 \/ IntOf(a[1]) > 20 \/ IntOf(a[1]) < -20 THEN Undef
                        ELSE IF IntOf(a[2]) <= 6 THEN IntR(IPow(IntOf(a[1]), IntOf(a[2])))
                        \* larger powers of 2 and 10 are exactly representable and must be printed in full
